@@ -65,9 +65,8 @@ def check(ctx):
     Fu = Facts(u)
     fact(ctx, R, u, "negation", Fu.assigns("negated_solution"), ["[-_b0 for _b0 in solution]"], "every element of the recorded solution is negated (idioms -x, -1*x, x*-1)")
     fact(ctx, R, u, "terminator", Fu.assigns("negated_solution_str"), ["' '.join([str(_b0) for _b0 in concat([-_b0 for _b0 in solution], [0])])"], "terminated by 0")
-    ah = u.nested.get("add_clause_to_header")
-    ctx.require(ah is not None, "update_file.add_clause_to_header not found")
-    fact(ctx, R, ah, "count + 1", Facts(ah).returns(), ["update_header(1, clause)"], "the header's clause count grows by exactly one")
+    from . import C27
+    C27.header_increment(ctx, R, u)
     cs = ctx.fn("sample_non_uniform:compute_solutions")
     ctx.check("update_file(filename, cryptominisat_solve(filename, use_docker)[:support])" in Facts(cs).exprs(), R, cs, "blocked = recorded",
               "the blocked assignment is the recorded one", "compute_solutions blocks something other than the recorded solution")
